@@ -28,10 +28,11 @@ import (
 )
 
 // Placement of the input bytes in memory (property C05): the result must not depend on it.
-//   heap  : a private allocation of exactly the input's length
-//   guard : the input ends exactly at a PROT_NONE page (a read past the end faults)
-//   adv   : the input is followed in memory by an adversarial continuation (bytes that would
-//           complete or extend the last token)
+//
+//	heap  : a private allocation of exactly the input's length
+//	guard : the input ends exactly at a PROT_NONE page (a read past the end faults)
+//	adv   : the input is followed in memory by an adversarial continuation (bytes that would
+//	        complete or extend the last token)
 var lexPlace = os.Getenv("VERIF_PLACE")
 
 // a ring of regions per worker, each [data pages][PROT_NONE page]: a placed input stays valid until
@@ -513,19 +514,19 @@ func printable(b []byte) string {
 }
 
 type lexSummary struct {
-	Cases        int            `json:"cases"`
-	Evals        int            `json:"evals"`
-	Skipped      int            `json:"skipped"`
-	ByVerdict    map[string]int `json:"by_verdict"`
-	PerAPI       map[string]int `json:"per_api"`
-	Bad          []lexBad       `json:"bad"`
-	BadTotal     int            `json:"bad_total"`
-	BadBySig     map[string]int `json:"bad_by_sig"`
-	Crashes      []string       `json:"crashes"`
-	Samples      []interface{}  `json:"samples"`
-	NonTrivial   int            `json:"distinct_nontrivial"`
-	WallS        float64        `json:"wall_s"`
-	Env          []string       `json:"env"`
+	Cases      int            `json:"cases"`
+	Evals      int            `json:"evals"`
+	Skipped    int            `json:"skipped"`
+	ByVerdict  map[string]int `json:"by_verdict"`
+	PerAPI     map[string]int `json:"per_api"`
+	Bad        []lexBad       `json:"bad"`
+	BadTotal   int            `json:"bad_total"`
+	BadBySig   map[string]int `json:"bad_by_sig"`
+	Crashes    []string       `json:"crashes"`
+	Samples    []interface{}  `json:"samples"`
+	NonTrivial int            `json:"distinct_nontrivial"`
+	WallS      float64        `json:"wall_s"`
+	Env        []string       `json:"env"`
 }
 
 func lexSigKey(b *lexBad) string {
